@@ -32,6 +32,7 @@ RULE = (
 RULE += '; an instance is compared both ways with its counterpart in every other specialisation of its generic class'
 RULE += '; many other specialisations of the generic class may come and go before the same specialisation is asked for again'
 RULE += '; an instance with a MISSING attribute is compared with one that has a value there'
+RULE += '; nested mutation also through mapping values; a class with bounded type variables (enumerated)'
 LEVEL_TEXT = (
     "Invariant checking over generated histories: a deep-frozen snapshot of the instance must be unchanged after every "
     "attempt; updated() is compared attribute-by-attribute with the conformance oracle's stored form; equality is "
@@ -88,6 +89,17 @@ def _first_element_term(t, env):
         return t["of"], env
     if k == "tuple_fixed":
         return t["items"][0], env
+    return None, env
+
+
+def _first_value_term(t, env):
+    """annotation of the VALUES of a mapping annotation (None when the annotation is not a mapping)"""
+    t, env = _expand(t, env)
+    k = t["t"]
+    if k == "optional":
+        return _first_value_term(t["of"], env)
+    if k == "map":
+        return t["v"], env
     return None, env
 
 
@@ -152,7 +164,52 @@ def _mutate(obj, how) -> bool:
     return False
 
 
+_BOUNDED_SRC = """from hv.termlib import *
+class C0[Items: Sequence[int], Meta: Mapping[str, int]](State):
+    items: Items
+    meta: Meta
+    n: int = 0
+"""
+
+
+def run_bounded(case) -> Outcome:
+    """a generic State whose type variables have BOUNDS, used without and with subscription: the bound is the annotation
+    that counts for an unsubscripted class - values are validated and made immutable against it like against any other"""
+    out = Outcome()
+    mod = TT.define(_BOUNDED_SRC + f"# {case['variant']}\n")
+    C = mod.C0 if case["variant"] == "plain" else mod.C0[Sequence[int], Mapping[str, int]]
+    items, meta = [1, 2], {"a": 1}
+    x = C(items=items, meta=meta)
+    snap = freeze(x)
+    items.append(3)
+    meta["b"] = 2
+    if freeze(x) != snap:
+        out.violate("immutable", f"C04.immutable/changed-after/mutation-of-original-argument/bounded-typevar-{case['variant']}", f"{x!r}")
+    for name, how in (("items", lambda v: v.append(9)), ("meta", lambda v: v.__setitem__("z", 9))):
+        try:
+            how(getattr(x, name))
+        except (AttributeError, TypeError):
+            pass
+        if freeze(x) != snap:
+            out.violate("immutable", f"C04.immutable/stored-container-mutable/bounded-typevar-{case['variant']}", f"{name}: {getattr(x, name)!r}")
+            break
+    for bad in ({"items": [1, "x"]}, {"items": 5}, {"meta": {"a": "x"}}, {"meta": [1]}):
+        try:
+            y = x.updated(**bad)
+        except Exception:  # noqa: BLE001 - rejected, as it must be
+            continue
+        out.violate("updated", f"C04.updated/nonconforming-accepted/bounded-typevar-{case['variant']}", f"updated({bad!r}) -> {y!r}")
+    y = x.updated(n=1)
+    if freeze(y.updated(n=0)) != snap or freeze(x) != snap:
+        out.violate("updated", f"C04.updated/copy-differs/bounded-typevar-{case['variant']}", f"{y!r}")
+    out.classes = ["bounded-type-variable"]
+    out.nontrivial = True
+    return out
+
+
 def run_case(case) -> Outcome:
+    if case.get("kind") == "bounded":
+        return run_bounded(case)
     out = Outcome()
     cls = case["cls"]
     src = TT.class_source({**cls, "derived": False})  # (the derived-class variants belong to C05)
@@ -220,6 +277,12 @@ def run_case(case) -> Outcome:
             if op.get("nested") and isinstance(obj, (list, tuple, collections.deque)) and obj:
                 inner = obj[0]
                 it, ee = _first_element_term(t, env)
+                if it is not None and _convertible(it, ee):
+                    target = inner
+            elif op.get("nested") and isinstance(obj, Mapping) and obj:
+                # a container that is a VALUE of the given mapping (the mapping itself may be read-only: a proxy)
+                inner = next(iter(obj.values()))
+                it, ee = _first_value_term(t, env)
                 if it is not None and _convertible(it, ee):
                     target = inner
             if _mutate(target, op["how"]):
@@ -568,6 +631,9 @@ def strategy(tier):
         (T_("alias_param", body=T_("seq", of=T_("var")), arg=T_("seq", of=T_("int"))), lambda outer: V_(outer, items=[V_("list", items=ints(1))])),
         (T_("map", k=T_("str"), v=T_("int")), lambda outer: V_("mproxy", items=[[V_("str", x="a"), V_("int", x=1)]])),
         (T_("map", k=T_("str"), v=T_("seq", of=T_("int"))), lambda outer: V_("mproxy", items=[[V_("str", x="a"), V_("list", items=ints(1))]])),
+        (T_("map", k=T_("str"), v=T_("seq", of=T_("int"))), lambda outer: V_("dict", items=[[V_("str", x="a"), V_("list", items=ints(1, 2))]])),
+        (T_("map", k=T_("str"), v=T_("set", of=T_("int"))), lambda outer: V_("dict", items=[[V_("str", x="a"), V_("set", items=ints(1))]])),
+        (T_("map", k=T_("str"), v=T_("map", k=T_("str"), v=T_("int"))), lambda outer: V_("dict", items=[[V_("str", x="a"), V_("dict", items=[[V_("str", x="b"), V_("int", x=1)]])]])),
         (T_("seq", of=T_("map", k=T_("str"), v=T_("map", k=T_("str"), v=T_("int")))),
          lambda outer: V_(outer, items=[V_("dict", items=[[V_("str", x="a"), V_("dict", items=[[V_("str", x="b"), V_("int", x=1)]])]])])),
     ]  # fmt: skip
@@ -692,3 +758,12 @@ def strategy(tier):
 
 def budget(tier):
     return {"examples": 1500, "shards": 1} if tier == "quick" else {"examples": 10000, "shards": 16}
+
+
+def enumerate_cases(tier):
+    """fixed classes that the term generator does not produce: type variables with bounds (plain and subscripted use)"""
+    yield {"kind": "bounded", "variant": "plain"}
+    yield {"kind": "bounded", "variant": "subscripted"}
+
+
+EXHAUSTIVE_MEANS = None
